@@ -440,6 +440,22 @@ def gen_schedule(tier):
     })
 
 
+def gen_addr_schedule(tier):
+    """Threads that only compute addresses / extended keys of shared nodes, switched every 1..8 lines."""
+    p = st.integers(0, 30)
+    req = st.one_of(st.tuples(st.just("address"), p, st.sampled_from(KINDS)),
+                    st.tuples(st.just("address"), p, st.sampled_from(["p2wsh", "p2sh_p2wsh", "p2sh_p2wpkh"])),
+                    st.tuples(st.just("node_keys"), p), st.tuples(st.just("xkeys"), p),
+                    st.tuples(st.just("gen_take"), p, st.sampled_from(KINDS), st.lists(st.sampled_from([0, 1, 2]), max_size=2)))
+    return st.fixed_dictionaries({
+        "seed": S.seeds(16, 32), "testnet": st.booleans(), "watch_only": st.sampled_from([False, False, True]),
+        "setup": st.lists(short_path(3), min_size=2, max_size=4),
+        "threads": st.lists(st.lists(req, min_size=2, max_size=4), min_size=2, max_size=3),
+        "twin_thread": st.sampled_from([None, None, None, 1]),
+        "plan": st.lists(st.tuples(st.integers(0, 2), st.integers(1, 8)), min_size=5, max_size=60),
+    })
+
+
 def build_world(case):
     wo = bool(case.get("watch_only"))
     world = World(case["seed"], case["testnet"], wo)
@@ -577,6 +593,11 @@ def clauses():
                "with at least one inside ckd / generate_children / derive_path (measured per run)",
                gen=gen_schedule, classes=lambda c: ["threads=%d" % len(c["threads"]), "watch-only" if c.get("watch_only") else "full"],
                n={"quick": 480, "thorough": 10000}, shards={"quick": 16, "thorough": 16}),
+        Clause("schedules-addresses", check_schedule,
+               "2..3 threads x 2..4 address / extended-key / generator requests on shared nodes, switched every 1..8 lines "
+               "(fine-grained interleaving inside address construction, key serialisation and script serialisation)",
+               gen=gen_addr_schedule, classes=lambda c: ["threads=%d" % len(c["threads"])],
+               n={"quick": 300, "thorough": 10000}, shards={"quick": 16, "thorough": 16}),
         Clause("free-running", check_free,
                "same requests on free-running threads with sys.setswitchinterval(1e-6) (unscripted preemption)",
                gen=gen_schedule, nontrivial=lambda c: len(c["threads"]) >= 3,
